@@ -106,7 +106,7 @@ func C08(r *core.Run) {
 	}
 	defer md.Close()
 	kinds := []string{"500", "503-empty-body", "garbage", "reset", "long-outage", "mixed", "404-empty-body"}
-	nScripts := r.Pick(5, 14)
+	nScripts := r.Pick(8, 14)
 	var wg sync.WaitGroup
 	for si := 0; si < nScripts; si++ {
 		wg.Add(1)
@@ -152,7 +152,8 @@ func c08Script(r *core.Run, agentBin string, md *fakes.Metadata, si, rep int, ki
 	script := []bool{}
 	nf := 11
 	if kind == "long-outage" {
-		nf = 14 // past the point where the delay must have reached its ~3 s cap
+		// well past the point where the delay has reached its ~3 s cap: it must stay there however long the outage lasts
+		nf = r.Pick(16, 22)
 	}
 	for i := 0; i < nf; i++ {
 		script = append(script, false)
@@ -211,7 +212,7 @@ func c08Script(r *core.Run, agentBin string, md *fakes.Metadata, si, rep int, ki
 		return false, false
 	}
 	defer agent.Kill()
-	deadline := time.Now().Add(60 * time.Second)
+	deadline := time.Now().Add(90 * time.Second)
 	for time.Now().Before(deadline) {
 		mu.Lock()
 		n := len(arrivals)
@@ -228,7 +229,7 @@ func c08Script(r *core.Run, agentBin string, md *fakes.Metadata, si, rep int, ki
 		if !agent.Alive() {
 			judgeProcs(r, true, agent)
 		}
-		r.Inconclusive(fmt.Sprintf("script %d: only %d of %d list calls arrived within 40s", si, len(arr), len(script)+1))
+		r.Inconclusive(fmt.Sprintf("script %d: only %d of %d list calls arrived within 90s", si, len(arr), len(script)+1))
 		return false, true
 	}
 	// gaps: after the k-th consecutive failure (k=1..) the agent sleeps base(k-1)
